@@ -454,7 +454,7 @@ class StreamSequence:
             self._streams.clear()
     
     def reverse(self):
-        self.streams.reverse()
+        self._streams.reverse()
     
     def __iter__(self):
         return iter(self._streams)
